@@ -317,6 +317,98 @@ class Accumulate(Harness):
                       inputs={"nfiles": nfiles, "counts": counts, "mismatch": mismatch, "mm": mm, "raw": use_raw, "apids": apv})
 
 
+class _NP:
+    @staticmethod
+    def asarray(lst, dtype=None):
+        return ("array", list(lst), dtype)
+
+
+class _XR:
+    @staticmethod
+    def Dataset(data_vars=None, **k):   # noqa: N802
+        if len({len(v[1][1]) for v in data_vars.values() if isinstance(v, tuple) and isinstance(v[1], tuple)}) > 1:
+            raise ValueError("conflicting sizes for dimension")
+        return dict(data_vars)
+
+
+from checks import e2e as _e2e      # noqa: E402
+APIDS_E2E = (5, 300)
+
+
+def _dataset_kwargs(p, parse_bad):
+    kw = dict(_e2e.source_kwargs(dict(p, source="file")))
+    kw["parse_bad_pkts"] = parse_bad
+    return kw
+
+
+class DatasetE2E(_e2e.E2E):
+    """create_dataset END TO END on the BV back end: the real function opens a SYMBOLIC packet file, runs the real definition-level generator (with
+    packet_generator_kwargs: record prefix, read size, bad-packet filter) and accumulates; the packets that reach the accumulation are compared
+    with Spec-XTCE (none lost, none invented) and every column of every per-APID dataset is exactly those packets' values (or raw values), in
+    file order"""
+    kind = "dataset-e2e"
+
+    def build_stream(self, lens):
+        stream, pk = super().build_stream(lens)
+        ctx = bv._c()
+        for q in pk:
+            apid = z3.Concat(z3.Extract(2, 0, bv.byte_term(q["items"][0])), bv.byte_term(q["items"][1]))
+            ctx.assume(z3.Or([apid == a for a in APIDS_E2E]))
+        return stream, pk
+
+    def collect(self, ctx, stream, parse_bad, yield_unrec, n):
+        from space_packet_parser import xarr
+        p = self.job["params"]
+        self.use_raw = bool(ctx.choose("raw", 2))
+        seen, defn = [], self.defn
+        real_gen = type(defn).packet_generator
+
+        def recording(*a, **k):
+            for y in real_gen(defn, *a, **k):
+                seen.append(y)
+                yield y
+        defn.packet_generator = recording
+        saved = (xarr.np, xarr.xr)
+        had_open = "open" in xarr.__dict__
+        xarr.np, xarr.xr = _NP, _XR
+        xarr.open = lambda path, mode="rb": bv.SymFileBV(stream)
+        try:
+            self.out, exc = run(lambda: xarr.create_dataset(["symbolic.bin"], defn, use_raw_values=self.use_raw, **_dataset_kwargs(p, parse_bad)))
+        finally:
+            xarr.np, xarr.xr = saved
+            del defn.packet_generator
+            if not had_open:
+                del xarr.open
+        return seen, ("stop" if exc is None else "exc:" + exc)
+
+    def extra(self, ctx, stream, pk, yields, index_of):
+        out = getattr(self, "out", None)
+        if out is None:
+            return [], {"raw": self.use_raw}, {"dataset": None}
+        by_apid = {}
+        for y in yields:
+            by_apid.setdefault(ctx.pick(y.raw_data.apid.t) if isinstance(y.raw_data.apid, bv.SymInt) else int(y.raw_data.apid), []).append(y)
+        obl = [("one dataset per APID that has packets", sorted(ctx.pick(k.t) if isinstance(k, bv.SymInt) else k for k in out) == sorted(by_apid))]
+        shape = {}
+        for k, ds in out.items():
+            a = ctx.pick(k.t) if isinstance(k, bv.SymInt) else k
+            pkts = by_apid.get(a, [])
+            shape[str(a)] = {}
+            names = list(pkts[0].keys()) if pkts else []
+            obl.append((f"APID {a}: one variable per field", list(ds.keys()) == names))
+            for name in names:
+                var = ds.get(name)
+                col = var[1][1] if isinstance(var, tuple) and isinstance(var[1], tuple) else None
+                ok = col is not None and len(col) == len(pkts)
+                obl.append((f"APID {a}.{name}: one row per packet", ok))
+                shape[str(a)][name] = len(col) if col is not None else None
+                if ok:
+                    for j, (cell, y) in enumerate(zip(col, pkts)):
+                        want = y[name].raw_value if self.use_raw else y[name]
+                        obl.append((f"APID {a}.{name} row {j}: the cell is that packet's {'raw ' if self.use_raw else ''}value", cell is want))
+        return obl, {"raw": self.use_raw}, {"dataset": shape}
+
+
 class StubRaw:
     def __init__(self, apid):
         self.apid = apid
@@ -342,6 +434,15 @@ def make(job):
         if not hasattr(xarr, attr):
             from spv.engine import EngineLimit
             raise EngineLimit(f"patched name missing after a refactor: xarr.{attr}")
+    if job["h"] == "dataset-e2e":
+        from checks import templates
+        from spv import specxtce
+        xml, _, _ = templates.get(job["params"]["template"])
+        h = DatasetE2E(job)
+        h.lib = lib
+        h.defn = bv.symbolize_definition(lib.definitions.XtcePacketDefinition.from_xtce(io.BytesIO(xml)))
+        h.spec = specxtce.Spec(xml)
+        return h
     h = {"dtype": DType, "class": ClassH, "nostrip": NoStrip, "accumulate": Accumulate, "twin": Twin}[job["h"]](job)
     h.lib = lib
     if job["h"] == "accumulate":
@@ -360,7 +461,10 @@ def jobs(tier):
             {"name": "dtype-wide", "h": "dtype", "params": {"wide": True}, "split": 8},
             {"name": "class", "h": "class", "params": {}, "split": 16, "chunk": 20, "must_reach": ["str", "bytes"]},
             {"name": "nostrip", "h": "nostrip", "params": {}, "must_reach": ["cell"]},
-            {"name": "accumulate", "h": "accumulate", "params": {}, "split": 32, "chunk": 40, "must_reach": ["dataset", "exc:ValueError"]}]
+            {"name": "accumulate", "h": "accumulate", "params": {}, "split": 32, "chunk": 40, "must_reach": ["dataset", "exc:ValueError"]}] + [
+        {"name": f"dataset-e2e-{'-'.join(map(str, lens))}-r{r}-skip{k}", "h": "dataset-e2e", "params": {"template": "TD", "lens": lens, "flagsets": [0, 1], "read": r, "skip": k},
+         "split": 16, "chunk": 25, "max_paths": 200000, "must_reach": []}
+        for lens, r, k in (([10, 10], 7, 4), ([11, 10], None, 0)) + ((([10, 10, 10], 1, 2), ([10, 9, 10], 20, 4), ([10, 10], 16, 10)) if tier != "quick" else ())]
 
 
 def vacuity_jobs():
@@ -420,7 +524,77 @@ def _plain(x):
     return repr(x)
 
 
+def _dataset_e2e_concrete(req):
+    import warnings
+    from checks import templates
+    from space_packet_parser import xarr
+    from space_packet_parser.xtce import definitions
+    from spv.obs import enc_concrete
+    i, p = req["input"], req["params"]
+    xml, _, _ = templates.get(i["template"])
+    stream = bytes.fromhex(i["stream"]["hex"])
+    box = {}
+    with tempfile.TemporaryDirectory(prefix="spv_c18_") as tmp:
+        path = os.path.join(tmp, "p.bin")
+        open(path, "wb").write(stream)
+
+        def runner(_xml, _stream):
+            d = definitions.XtcePacketDefinition.from_xtce(io.BytesIO(_xml))
+            seen, real_gen = [], type(d).packet_generator
+
+            def recording(*a, **k):
+                for y in real_gen(d, *a, **k):
+                    seen.append(y)
+                    yield y
+            d.packet_generator = recording
+            try:
+                box["ds"] = xarr.create_dataset([path], d, use_raw_values=i["raw"], **_dataset_kwargs(p, i["parse_bad"]))
+                return seen, "stop"
+            except Exception as e:    # noqa: BLE001
+                return seen, "exc:" + type(e).__name__
+        with warnings.catch_warnings():
+            warnings.simplefilter("ignore")
+            got = _e2e.run_real(xml, stream, i["parse_bad"], False, len(i["lens"]), runner=runner, p=dict(p, template=i["template"]))
+    ds = box.get("ds")
+    if ds is None:
+        got["dataset"] = None
+        return got
+    got["dataset"] = {str(a): {name: int(ds[a][name].shape[0]) for name in ds[a].data_vars} for a in ds}
+    got["rows"] = {str(a): {name: [enc_concrete(v.item() if hasattr(v, "item") else v) for v in ds[a][name].values] for name in ds[a].data_vars} for a in ds}
+    return got
+
+
+def _dataset_e2e_judge(req, got):
+    from spv import obs
+    verdict, why = _e2e.judge(req, got)
+    if verdict != "not-reproduced":
+        return verdict, "packets reaching create_dataset: " + why
+    i = req["input"]
+    if got.get("dataset") is None:
+        return ("not-reproduced", "decoder exception allowed by Spec-XTCE") if got["end"] != "stop" else ("reproduced", "create_dataset returned nothing")
+    head = f"create_dataset(use_raw_values={i['raw']}, {_dataset_kwargs(req['params'], i['parse_bad'])}) on template {i['template']} file {i['stream']['hex']}"
+    by_apid = {}
+    for y in got["yields"]:
+        if y["kind"] == "packet":
+            apid = next(v for n, v, _, _ in y["items"] if n == "APID")
+            by_apid.setdefault(str(apid), []).append(y)
+    if sorted(got["rows"]) != sorted(by_apid):
+        return "reproduced", f"{head}: datasets for APIDs {sorted(got['rows'])}, packets of APIDs {sorted(by_apid)}"
+    for a, pkts in by_apid.items():
+        for col, (name, val, raw, _cls) in enumerate(pkts[0]["items"]):
+            cells = got["rows"][a].get(name)
+            want = [(y["items"][col][2] if i["raw"] else y["items"][col][1]) for y in pkts]
+            if cells is None or len(cells) != len(want):
+                return "reproduced", f"{head}: APID {a} variable {name}: {None if cells is None else len(cells)} rows for {len(want)} packets"
+            for j, (c, w) in enumerate(zip(cells, want)):
+                if obs.same(w, c, f"APID {a}.{name}[{j}]"):
+                    return "reproduced", f"{head}: APID {a} variable {name} row {j}: cell {c} != {'raw ' if i['raw'] else ''}value {w} of that packet"
+    return "not-reproduced", "every cell is its packet's value"
+
+
 def concrete(req):
+    if req["kind"] == "dataset-e2e":
+        return _dataset_e2e_concrete(req)
     i = req["input"]
     lib = _RealLib()
     k = req["kind"]
@@ -500,6 +674,8 @@ def judge(req, got):
     if got.get("cls") in ("WORKER-ERROR", "WORKER-DIED", "TIMEOUT"):
         return "error", str(got)[:300]
     i, k = req["input"], req["kind"]
+    if k == "dataset-e2e":
+        return _dataset_e2e_judge(req, got)
     lib = _RealLib()
     if k == "dtype":
         kind, n = i["kind"], i["n"]
